@@ -86,6 +86,7 @@ func OrdMapStep(m OrdMap) {
 			wantVals[at] = 99
 		}
 	case 2:
+		// Update is atomic: its callback runs under the write lock (otherwise a concurrent update is lost)
 		m.Update(k, 77)
 		if at >= 0 {
 			wantVals = append([]int(nil), vals...)
